@@ -192,7 +192,7 @@ def div_cbmc(cap):
     us = "bn_div_wrapped_for_contract_checking.0:6,bn_div_wrapped_for_contract_checking.1:%d," % (cap + 2)
     return ["--unwind", "3", "--unwindset", us + "vf_d_clz.0:10,vf_d_ctz.0:10,vf_d_popcount.0:10,__CPROVER_contracts_write_set_check_assigns_clause_inclusion.0:40,__CPROVER_contracts_write_set_check_frees_clause_inclusion.0:40", "--unwinding-assertions", "--object-bits", "12"]
 DIV_FORMS = {0: "separate remainder", 1: "remainder NULL", 2: "remainder == bn", 3: "bn == d"}
-for cap, tier, tmo in ((1, "quick", 900), (2, "thorough", 7200)):
+for cap, tier, tmo in ((1, "quick", 2400), (2, "thorough", 7200)):
     for form, ftxt in DIV_FORMS.items():
         job("r2.bn_div.w8.cap%d.form%d" % (cap, form), "bn2.c",
             cfg(8, True, bitlen=16, extra=["VF_FN_div", "VF_DIV_FORM=%d" % form, "VF_DIV_MAXCOUNT=%d" % cap, "VF_BN_ASSUME_DISTRIB"] + vb(16)),
@@ -261,33 +261,11 @@ for key, full, repl, us, route, bound in R3L:
         tier="thorough", timeout=900,
         cbmc=["--unwind", "6", "--unwindset", CL + ("," + us if us else ""), "--unwinding-assertions", "--object-bits", "10"])
 
-# ------------------------------------------------------------------ rung 3, loop functions by full unwinding (modular, W = 8, small values):
-# termination for the stated value range is the unwinding assertion ("unwind_violation": the bound is the loop's
-# bit-length bound, exceeding it is a termination violation), value clauses included
+# (full unwinding of the rung-3 loop functions with replaced callees exhausts memory in cbmc's SSA conversion: loop contracts instead)
 CLU = "vf_d_clz.0:10,vf_d_ctz.0:10,vf_d_popcount.0:10,__CPROVER_contracts_write_set_check_assigns_clause_inclusion.0:40,__CPROVER_contracts_write_set_check_frees_clause_inclusion.0:40"
 def lset(fn, n, ids=range(16)):
     # --dfcc renames the body of an enforced function to <fn>_wrapped_for_contract_checking
     return ",".join("%s.%d:%d,%s_wrapped_for_contract_checking.%d:%d" % (fn, k, n, fn, k, n) for k in ids)
-R3U = [
- # key, fn, replaced, BN_BIT_LEN, value digits, unwindset, bound text, extra defines
- ("sqrt1", "bn_sqrt1", ["bn_init", "bn_assign_2exp", "bn_clz", "bn_cmp", "bn_r_shift", "bn_is_zero", "bn_assign", "bn_add", "bn_sub"],
-  16, None, lset("bn_sqrt1", 11), "W = 8, BN_MAX_DIGITS = 2: every number of every capacity <= 16 bit", []),
- ("gcd", "bn_gcd", ["bn_is_zero", "bn_assign", "bn_cmp", "bn_assign_init", "bn_div"],
-  16, 1, lset("bn_gcd", 15), "W = 8, BN_MAX_DIGITS = 2, operands < 2^8 (Euclid needs <= 13 rounds)", []),
- ("gcd_bin", "bn_gcd_bin", ["bn_is_zero", "bn_assign", "bn_cmp", "bn_assign_init", "bn_ctz", "bn_r_shift", "bn_sub", "bn_l_shift"],
-  16, 1, lset("bn_gcd_bin", 19), "W = 8, BN_MAX_DIGITS = 2, operands < 2^8 (binary gcd needs <= 16 rounds)", []),
- ("mod_inv_bin", "bn_mod_inv_bin", ["bn_is_zero", "bn_cmp", "bn_is_odd", "bn_init", "bn_assign", "bn_assign_digit", "bn_is_one", "bn_is_even", "bn_r_shift", "bn_add", "bn_mod_sub"],
-  48, 1, lset("bn_mod_inv_bin", 20), "W = 8, BN_MAX_DIGITS = 6, modulus and operand < 2^8 (<= 18 outer rounds, <= 8 halvings each)", []),
-]
-for key, full, repl, bitlen, vd, us, bound, extra in R3U:
-    ex = ["VF_FN_" + key] + vb(bitlen) + list(extra)
-    if vd:
-        ex.append("VF_MAXVAL_DIGITS=%d" % vd)
-    job("r3.%s.w8.b%d" % (full, bitlen), "bn3.c", cfg(8, True, bitlen=bitlen, extra=ex),
-        enforce=[full], replace=repl, functions=[full], route="bounded", bound=bound + "; loops fully unwound, callees replaced by their contracts",
-        backend="kissat", tier="thorough", timeout=3600, timeout_thorough=3600, unwind_violation=True,
-        cbmc=["--unwind", "7", "--unwindset", CLU + "," + us, "--unwinding-assertions", "--object-bits", "13"])
-
 # ------------------------------------------------------------------ rung 3, loop functions with loop contracts (iterations unbounded; W = 8, BN_MAX_DIGITS = 2)
 R3LC = [
  ("mod_exp_digit", "bn_mod_exp_digit", ["bn_assign_digit", "bn_mod_mult", "bn_assign_init"]),
@@ -305,9 +283,16 @@ for key, full, repl in R3LC:
         cbmc=["--object-bits", "10"])
 
 R3LC2 = [
- ("gcd", "bn_gcd", ["bn_assign", "bn_cmp", "bn_assign_init", "bn_div"], 16, []),
- ("gcd_bin", "bn_gcd_bin", ["bn_assign", "bn_cmp", "bn_assign_init", "bn_ctz", "bn_r_shift", "bn_sub", "bn_l_shift"], 16, []),
+ ("sqrt1", "bn_sqrt1", ["bn_init", "bn_assign_2exp", "bn_clz", "bn_cmp", "bn_r_shift", "bn_assign", "bn_add", "bn_sub"], 16, []),
+ ("gcd", "bn_gcd", ["bn_assign", "bn_cmp", "bn_assign_init", "bn_div"], 8, ["VF_BN_GCD_NO_VALUE"]),
+ ("gcd_bin", "bn_gcd_bin", ["bn_assign", "bn_cmp", "bn_assign_init", "bn_ctz", "bn_r_shift", "bn_sub", "bn_l_shift"], 8, ["VF_BN_GCD_NO_VALUE"]),
  ("mod_inv_bin", "bn_mod_inv_bin", ["bn_cmp", "bn_init", "bn_assign", "bn_assign_digit", "bn_r_shift", "bn_add", "bn_mod_sub"], 56, ["VF_BN_INV_NO_VALUE", "VF_MAXVAL_DIGITS=3"]),
+]
+MS_REPL = ["bn_mod", "bn_mod_legendre", "bn_assign_init", "bn_add_digit", "bn_sub_digit", "bn_r_shift", "bn_mod_exp", "bn_mod_mult_digit",
+           "bn_mod_mult", "bn_mod_square", "bn_init", "bn_assign", "bn_calc_bits", "bn_xor", "bn_ctz", "bn_assign_2exp", "bn_div",
+           "bn_mod_inv_bin", "bn_cmp"]
+R3LC2 += [
+ ("mod_sqrt", "bn_mod_sqrt", MS_REPL, 56, ["VF_BN_INV_NO_VALUE", "VF_BN_GCD_NO_VALUE"]),
 ]
 for key, full, repl, bitlen, extra in R3LC2:
     W, nd = 8, bitlen // 8
@@ -316,8 +301,15 @@ for key, full, repl, bitlen, extra in R3LC2:
         enforce=[full], replace=repl, functions=[full], route="bounded", backend="kissat",
         bound="W = 8, build with BN_MAX_DIGITS = %d; every loop is closed by a loop contract (invariant: operands well-formed and in range; decreases: the remaining value), so the number of iterations is unbounded and termination is proved; callees replaced by their contracts" % nd,
         loops=loops_file(key + "_lc", [full], maxd=nd), foreach=[{"SZ": 1, "MAXD": nd}],
-        tier="thorough", timeout=3600, timeout_thorough=3600,
-        cbmc=["--object-bits", "10"])
+        tier="thorough", timeout=3600, timeout_thorough=3600, mem_gb=40,
+        cbmc=["--object-bits", "13"])
+
+# bn_mod_legendre: straight-line over its callees
+job("r3.bn_mod_legendre.w8.n2", "bn3.c", cfg(8, True, bitlen=16, extra=["VF_FN_mod_legendre"] + vb(16)),
+    enforce=["bn_mod_legendre"], replace=["bn_assign_init", "bn_mod", "bn_sub_digit", "bn_r_shift", "bn_mod_exp", "bn_cmp"],
+    functions=["bn_mod_legendre"], route="bounded", backend="kissat",
+    bound="W = 8, build with BN_MAX_DIGITS = 2; callees replaced by their contracts", tier="thorough", timeout=1800, timeout_thorough=1800,
+    cbmc=["--unwind", "4", "--unwindset", CLU, "--unwinding-assertions", "--object-bits", "10"])
 
 # ------------------------------------------------------------------ tier overrides from measured times (quick: <= ~90 s each on an idle 16-core box)
 import re
@@ -328,7 +320,7 @@ TIER_OVERRIDE = [
     (r"^r2\.bn_calc_(naf|jsf)\.", "thorough"),
     (r"^r2\.bn_calc_jsf\.w8\.b8$", "quick"),  # (last match wins) quick tier: catches a dropped JSF carry (seeded C02-m3)
     (r"^r2\.bn_mult_digit\.w8\.n3$", "quick"),
-    (r"^r2\.bn_div\.w8\.n2$", "quick"),
+    (r"^r2\.bn_div\.w8\.cap1\.form[013]$", "thorough"),  # quick tier keeps cap1.form2 (remainder == bn, the bn_mod form): detects seeded C01-m2
 ]
 for j in jobs:
     for rx, t in TIER_OVERRIDE:
@@ -347,10 +339,15 @@ EXPLANATION = (
  "(r1c.*); import/export be/le x bin/hex against the number the bytes/text denote (r1d.*). "
  "Rung 2 (r2.*): multiplicative layer, modular (callees replaced by their contracts), W = 8 and <= 4 digits: digit-array "
  "multiply-accumulate functions against the sum of per-digit products, bn_mult / bn_square / bn_mult_digit against the "
- "exact product (bn_div: contract written, not proved); NAF / JSF / comb column by executing the whole function for every scalar up to 8 (16) bits. "
+ "exact product; bn_div (all four remainder forms, W = 8, dividend capacity 1 and 2 digits) against its EOVERFLOW/EINVAL decision and "
+ "q*d + r == n, r < d, with the quotient-digit and quotient-correction loops fully unwound; NAF / JSF / comb column by executing the whole function for every scalar up to 8 (16) bits. "
  "Rung 3 (r3.*): bn_mod, bn_mod_add/sub/mult/mult_digit/square/reduce value contracts proved modularly (bn_mod_add/sub at "
  "4 digits, W = 8 and 64; the ones whose specification contains products or remainders at W = 8, 2 digits); bn_mod_div: return-code set, domain checks, error propagation, "
- "well-formed result. Every harness ends in a reachability canary; failing obligations that were confirmed natively on the "
+ "well-formed result. Loop functions (second round, r3.*.loops.*): every loop closed by a loop contract, callees replaced by their "
+ "contracts - bn_sqrt1 with the textbook invariant (full value contract floor(sqrt)), bn_mod_inv_bin (frame, status, EINVAL domain incl. "
+ "even modulus, result < m, termination of all three loops), bn_mod_exp / bn_mod_exp_digit / bn_exp_digit (frame, status, "
+ "well-formed result, termination), bn_gcd / bn_gcd_bin, bn_mod_sqrt (status, and: success implies result^2 == input mod m), "
+ "bn_mod_legendre (status set). Every harness ends in a reachability canary; failing obligations that were confirmed natively on the "
  "real code are listed in known_findings.d/C01.json with patches in proposed_fixes/bignum-*.diff; the ledger is generated from "
  "the tree that contains those patches.")
 ASSUMPTIONS = [
@@ -367,11 +364,11 @@ NOT_COVERED = [
  "128-bit digits (no double-width type): not built",
  "capacities above the verified ones: value contracts are proved for <= 4 digits (8 digits at W=8 in the thorough tier); the unbounded jobs prove memory safety / frame / termination / carry range only; bn_digits_l_shift / bn_digits_r_shift have NO unbounded job (memmove/memset with symbolic length: > 240 s on every attempt, also with arrays capped at 64 digits) - only the bounded value jobs",
  "intra-object overflow: cbmc's bounds check for a member array reached through a pointer is object-granular, so an index such as num[(size_t)-1] that stays inside the bn_t object is not flagged (bn_sub with both operands zero reads num[digits - 1] with digits == 0: value unused, not detected by any obligation, not confirmed by UBSan either)",
- "bn_div: the contract (contracts/bn_mul.h: EINVAL iff d == 0, exact quotient/remainder, all remainder forms) is NOT proved: the modular job (15 callees replaced by contracts, W = 8, 2 and 3 digits, kissat) did not finish in 35 min; its contract is nevertheless what the bn_mod / bn_mod_* proofs assume",
+ "bn_div is proved (enforced) for W = 8 with dividend capacity and divisor of 1 and 2 digits, all remainder forms; for that capacity the bn_mod / bn_mod_* / bn_gcd proofs no longer rest on an assumed bn_div contract. Larger capacities (3+ digits, other widths): bn_div's contract is still only assumed there (symbolic execution of the nested unwound loops with contract instrumentation needs > 9 GB and ~10 min already at 2 digits)",
  "rung 2 is W = 8 only and <= 4 digits (bn_mult <= 3 digits); the digit-array multiply functions are proved against the sum of per-digit products, the closed product form used by their callers rests on the distributivity identity listed in those jobs' assumptions",
  "rung 3 at larger configurations: bn_mod / bn_mod_mult / bn_mod_mult_digit / bn_mod_square / bn_mod_reduce at W = 8 x 4 digits and bn_mod_add at the shipped W = 64 x 22 digits (2880-bit spec vectors) did not finish in 1200 s and are not registered; bn_calc_naf with 16-bit scalars > 1800 s (8-bit scalars, windows 2..5, proved; bn_calc_jsf proved for all pairs of 16-bit scalars)",
  "bn_exp_digit, bn_digit_egcd, bn_mod_small, bn_mod_legendre: no contract",
- "rung 3 loop functions: bn_mod_inv_bin, bn_gcd, bn_gcd_bin, bn_sqrt1, bn_mod_sqrt have no proved contract (not attempted for lack of time; bn_mod_inv_bin's domain/return-code contract is only USED, as an assumption, by the bn_mod_div job); bn_mod_exp / bn_mod_exp_digit: safety contracts written (contracts/bn_mod.h) but the modular jobs did not get through in the time available (first attempt cbmc rc 6 / 1800 s timeout with a global unwind bound, second attempt stopped at the exponent loop's unwinding assertion) - not registered",
+ "rung 3 loop functions, value clauses: proved only for bn_sqrt1 (floor square root) and bn_mod_sqrt (root property through the function's own final check). NOT proved: bn_mod_inv_bin 'result != 0 and result * bn == 1 (mod m)' (only frame / status / domain / range / termination), bn_gcd / bn_gcd_bin 'is the greatest common divisor', bn_mod_exp* / bn_exp_digit 'equals bn^e (mod m)' beyond e in {0,1,2}. All loop-function proofs are at W = 8 with BN_MAX_DIGITS = 2 (bn_mod_inv_bin, bn_mod_sqrt: 7) - the loop contracts make the NUMBER OF ITERATIONS unbounded, not the capacity; full unwinding instead of loop contracts exhausts memory in cbmc's SSA conversion",
  "import/export digit-array level (bn_digits_import_*/export_*) unbounded safety jobs: not registered (the bn_t-level jobs execute those bodies for buffers <= 8..18 bytes); export hex at W=64 runs out of memory (12 GB) in symbolic execution",
  "outside the claim as stated by the property: Barrett reduction, bn_egcd, bn_mod_inv3, bn_sqrt4 (and the non-selected bn_sqrt2/3/5, bn_mod_inv1/2, bn_mod_inv_mont, bn_mod_div_mont)",
 ]
